@@ -41,6 +41,7 @@ type recTT struct {
 	hits       int
 	replaced   int
 	bad        bool
+	noHitCheck bool // the table was filled behind the wrapper's back (C12 prefill)
 	slots      uint64
 }
 
@@ -57,7 +58,7 @@ func (r *recTT) Read(h board.ZobristHash) (search.Bound, int, eval.Score, board.
 		r.hits++
 		e, known := r.stored[h]
 		got := ttEntry{bound, depth, score, mv.From, mv.To, mv.Promotion}
-		if !known || e != got {
+		if (!known || e != got) && !r.noHitCheck {
 			if !r.bad {
 				r.res.Violate(r.prop, "tt-hit-not-a-store", r.step, "Read(%x) returned %+v; the last store let through for that hash was %+v (known=%v)", uint64(h), got, e, known)
 			}
